@@ -556,6 +556,7 @@ func c10WriterBuf(ru *fw.Rule, p *fw.Program, k string, wr *ssa.Function, rcv ss
 	if nPut > 0 {
 		ru.Check(okPut, k+"buf:put", pos(firstPut), "a byte stored at buf[bufOffset] is followed by bufOffset+1 before the buffer is sliced", "a separator/newline is stored at buf[bufOffset] but the fill position is not advanced by 1 before the buffer is sliced for the flush (or the iteration ends): the flush cuts the last character of a cell or drops the row end")
 	}
+	c10WriterGrow(ru, p, k, wr, rcv, env, cell, cp, src, bufF, offF, nPut > 0, recvField, fname)
 	// deferred separator at buf[0] => bufOffset = 1 before the first cell
 	nRes, okRes := 0, true
 	var firstRes ssa.Instruction
@@ -1583,4 +1584,167 @@ func c10LocalClosure(v ssa.Value, parent *ssa.Function) bool {
 		return n == 1 && good
 	}
 	return false
+}
+
+// c10WriterGrow: a Write that replaces its line buffer (growth for long cell texts) keeps what is
+// already buffered for the row: the new buffer is append(old, ..) or receives copy(new, old) with
+// the old prefix; it is taken whenever the old one has no room for the cell text (plus the byte that
+// may be put after it) and the new length has that room. A writer that never replaces its buffer
+// has nothing to keep (no obligation).
+func c10WriterGrow(ru *fw.Rule, p *fw.Program, k string, wr *ssa.Function, rcv ssa.Value, env *fw.PolyEnv, cell, cp *ssa.Call, src ssa.Value, bufF, offF int, puts bool, recvField func(ssa.Value) int, fname func(int) string) {
+	pos := func(i ssa.Instruction) string { return p.Rel(i.Pos()) }
+	bo := fw.PAtom("recv." + fname(offF))
+	before := func(a, b ssa.Instruction) bool { // a executes before b on every path to b
+		if a.Block() == b.Block() {
+			return c10InstrIndex(a) < c10InstrIndex(b)
+		}
+		return a.Block().Dominates(b.Block())
+	}
+	// old prefix: a load of the buffer field, or its slice [0:hi] with hi absent or the fill position / its length
+	oldPrefix := func(v ssa.Value) (ssa.Instruction, bool) {
+		v = c10Strip(v)
+		if sl, ok := v.(*ssa.Slice); ok {
+			if sl.Low != nil {
+				if z, isC := c10ConstInt(sl.Low); !isC || z != 0 {
+					return nil, false
+				}
+			}
+			if sl.High != nil {
+				hi := env.Of(sl.High)
+				isLen := false
+				if lc, ok := c10Strip(sl.High).(*ssa.Call); ok && fw.IsBuiltinCall(lc, "len") && recvField(lc.Call.Args[0]) == bufF {
+					isLen = true
+				}
+				if !hi.Equal(bo) && !isLen {
+					return nil, false
+				}
+			}
+			v = sl.X
+		}
+		if recvField(v) != bufF {
+			return nil, false
+		}
+		ld, _ := v.(ssa.Instruction)
+		return ld, ld != nil
+	}
+	var stores []*ssa.Store
+	fw.EachInstr(wr, func(ins ssa.Instruction) {
+		if _, ok := c10RecvFieldStore(ins, rcv, bufF); ok {
+			stores = append(stores, ins.(*ssa.Store))
+		}
+	})
+	if len(stores) == 0 {
+		return
+	}
+	// the lengths involved
+	var lenBuf, lenSrc *fw.Poly
+	fw.EachInstr(wr, func(ins ssa.Instruction) {
+		lc, ok := ins.(*ssa.Call)
+		if !ok || !fw.IsBuiltinCall(lc, "len") {
+			return
+		}
+		if recvField(lc.Call.Args[0]) == bufF && lenBuf == nil {
+			lenBuf = fw.StripVersions(env.Of(lc))
+		}
+		if (lc.Call.Args[0] == src || lc.Call.Args[0] == ssa.Value(cell)) && lenSrc == nil {
+			lenSrc = fw.StripVersions(env.Of(lc))
+		}
+	})
+	for i, st := range stores {
+		keyK, keyR := fmt.Sprintf("%sbuf:grow:keep#%d", k, i), fmt.Sprintf("%sbuf:grow:room#%d", k, i)
+		v := c10Strip(st.Val)
+		// --- keep
+		keep := false
+		var newLen *fw.Poly
+		mkLen := func(x ssa.Value) *fw.Poly {
+			if ms, ok := c10Strip(x).(*ssa.MakeSlice); ok {
+				return fw.StripVersions(env.Of(ms.Len))
+			}
+			return nil
+		}
+		if ac, ok := v.(*ssa.Call); ok && fw.IsBuiltinCall(ac, "append") && len(ac.Call.Args) == 2 {
+			if ld, ok := oldPrefix(ac.Call.Args[0]); ok && before(ld, st) {
+				if _, sliced := c10Strip(ac.Call.Args[0]).(*ssa.Slice); !sliced {
+					keep = true
+					if n := mkLen(ac.Call.Args[1]); n != nil && lenBuf != nil {
+						newLen = lenBuf.Add(n)
+					}
+				}
+			}
+		} else {
+			newLen = mkLen(v)
+			fw.EachInstr(wr, func(ins ssa.Instruction) {
+				c, ok := ins.(*ssa.Call)
+				if !ok || !fw.IsBuiltinCall(c, "copy") || len(c.Call.Args) != 2 || c == cp {
+					return
+				}
+				ld, okOld := oldPrefix(c.Call.Args[1])
+				if !okOld || !before(ld, st) {
+					return
+				}
+				dst := c10Strip(c.Call.Args[0])
+				if sl, ok := dst.(*ssa.Slice); ok && sl.Low == nil {
+					dst = c10Strip(sl.X)
+				}
+				switch {
+				case dst == v && before(c, st):
+					keep = true
+				case dst == v && before(st, c) && !cp.Block().Dominates(c.Block()):
+					keep = true
+				case recvField(dst) == bufF && before(st, c) && !cp.Block().Dominates(c.Block()):
+					if dl, ok := dst.(ssa.Instruction); ok && before(st, dl) {
+						keep = true
+					}
+				}
+			})
+		}
+		ru.Check(keep, keyK, pos(st), "the replacement line buffer starts with the old one's contents (append(old, ..) or copy(new, old))", "Write replaces its line buffer by "+c10NoStoreSuffix(env.Of(st.Val).String())+" without carrying over the bytes already buffered for the row (neither append(old buffer, ..) nor copy(new, old buffer) before the next cell): the cells buffered so far are lost, the row shows fewer (or zero) bytes than the address rows and the ascii column announce")
+		// --- room
+		if lenBuf == nil || lenSrc == nil {
+			ru.Undecided(keyR, pos(st), "len(line buffer) / len(cell text) not found")
+			continue
+		}
+		required := bo.Add(lenSrc)
+		if puts {
+			required = required.Add(fw.PConst(1))
+		}
+		why := ""
+		// skipped only when there is room: the negation of the guard of the growth implies len(buf) >= required
+		guarded := false
+		for d := st.Block(); d != nil && !guarded; d = d.Idom() {
+			id := d.Idom()
+			if id == nil || !cell.Block().Dominates(id) {
+				break
+			}
+			ifi, ok := id.Instrs[len(id.Instrs)-1].(*ssa.If)
+			if !ok || len(id.Succs) != 2 {
+				continue
+			}
+			// the edge that bypasses the growth
+			for si, sc := range id.Succs {
+				if sc.Dominates(st.Block()) && len(sc.Preds) == 1 {
+					continue
+				}
+				for _, f := range c10CondFacts(env, []c10Cond{{ifi.Cond, si == 0}}) {
+					f.P = fw.StripVersions(f.P)
+					if f.Implies(fw.Cmp{P: lenBuf.Sub(required), Rel: fw.GE}) {
+						guarded = true
+					}
+				}
+			}
+		}
+		if !guarded {
+			why = "the growth is not taken whenever len(buffer) < " + required.String()
+		}
+		if newLen == nil {
+			why = "the new buffer's length is not derivable"
+		} else {
+			for m, c := range newLen.Sub(required).T {
+				if c.Sign() < 0 {
+					why = "the new length " + newLen.String() + " can be below " + required.String() + " (term " + m + ")"
+				}
+			}
+		}
+		ru.Check(why == "", keyR, pos(st), "the buffer is replaced whenever it lacks room for fill position + cell text (+1) and the new length has it", "line buffer growth: "+why+": the cell text is copied truncated (copy stops at the buffer's end) or the write panics instead of showing the bytes")
+	}
 }
